@@ -20,10 +20,10 @@
 //!        hook = msg (key = message id) | start (key = stage) | end (key = 0) | task (key = task tag)
 //!        action = send <dst> <delay> <id>   send / send_in over the gate chain to <dst>
 //!               | sched <delay> <id>        schedule_in on the own module
-//!               | spawn <tag> <sleep> [join] [local]
+//!               | spawn <tag> <sleep> [join|must] [local]
 //!                                           tokio::spawn (`local`: tokio::task::spawn_local; inside the body of
 //!                                           a tokio::spawn task `local` is ignored): sleep <sleep> ns (>= 1), log, then the
-//!                                           actions of (M, task, tag); `join`: registered with try_join
+//!                                           actions of (M, task, tag); `join`: handle given to try_join, `must`: to current().join
 //!               | shutdown | restart_in <d> | restart_at <t>
 //!               | panic | log <n>
 //!               | rpanic                    panics iff `Module::reset` of this module was called before (a module that
@@ -35,7 +35,10 @@
 //!                                           dwn <restart time|-> - (a shutdown request) |
 //!                                           pan <0 callback|1 task> <1 if try_join'ed> (just before a panic) |
 //!                                           harness-only lines (not produced by the model, judged by the
-//!                                           driver's acceptance checker): spw tag sleep (a task is spawned),
+//!                                           driver's acceptance checker): spw tag sleep (a task is spawned; spm if
+//!                                           its handle goes to `current().join`, the must_join list; the n-th such
+//!                                           line of a module announces its task number n), trs n (task number n
+//!                                           resumes; precedes its `task` line),
 //!                                           pes - - / pee - - (event_start / event_end of the module's
 //!                                           pass-through processing element)
 //!   res ok | res err <panic:M|join:M|other>... | res crash <text>     result of run()
@@ -58,7 +61,8 @@ use std::sync::{Arc, Mutex};
 pub(crate) enum Action {
     Send(String, u64, u16),
     Sched(u64, u16),
-    Spawn(u64, u64, bool, bool),
+    /// tag, sleep, try_join, spawn_local, join (must_join)
+    Spawn(u64, u64, bool, bool, bool),
     Shutdown,
     RestartIn(u64),
     RestartAt(u64),
@@ -77,6 +81,8 @@ pub(crate) struct ModSpec {
     links: Vec<String>,
     /// number of `Module::reset` calls of the running simulation
     resets: Arc<std::sync::atomic::AtomicUsize>,
+    /// number of tasks spawned by the module in the running simulation
+    spawns: Arc<std::sync::atomic::AtomicUsize>,
 }
 
 #[derive(Clone, Debug)]
@@ -111,10 +117,18 @@ fn parse_action(t: &[&str], mods: &[String]) -> Option<Action> {
             Some(Action::Send(dst.to_string(), delay.parse().ok()?, id.parse().ok()?))
         }
         ["sched", delay, id] => Some(Action::Sched(delay.parse().ok()?, id.parse().ok()?)),
-        ["spawn", tag, sleep] => Some(Action::Spawn(tag.parse().ok()?, sleep.parse::<u64>().ok()?.max(1), false, false)),
-        ["spawn", tag, sleep, "join"] => Some(Action::Spawn(tag.parse().ok()?, sleep.parse::<u64>().ok()?.max(1), true, false)),
-        ["spawn", tag, sleep, "local"] => Some(Action::Spawn(tag.parse().ok()?, sleep.parse::<u64>().ok()?.max(1), false, true)),
-        ["spawn", tag, sleep, "join", "local"] => Some(Action::Spawn(tag.parse().ok()?, sleep.parse::<u64>().ok()?.max(1), true, true)),
+        ["spawn", tag, sleep, flags @ ..] => {
+            let (join, must, local) = match flags {
+                [] => (false, false, false),
+                ["join"] => (true, false, false),
+                ["must"] => (false, true, false),
+                ["local"] => (false, false, true),
+                ["join", "local"] => (true, false, true),
+                ["must", "local"] => (false, true, true),
+                _ => return None,
+            };
+            Some(Action::Spawn(tag.parse().ok()?, sleep.parse::<u64>().ok()?.max(1), join, local, must))
+        }
         ["shutdown"] => Some(Action::Shutdown),
         ["restart_in", d] => Some(Action::RestartIn(d.parse().ok()?)),
         ["restart_at", t] => Some(Action::RestartAt(t.parse().ok()?)),
@@ -255,18 +269,23 @@ fn run_actions(spec: &Arc<ModSpec>, hook: &str, key: u64, in_task: bool, joined:
                 log(&spec.tag, "sch", Some(*id as u64), Some(serial as u64));
                 schedule_in(Message::default().id(*id).kind(serial), Duration::from_nanos(*delay));
             }
-            Action::Spawn(tag, sleep, join, local) => {
+            Action::Spawn(tag, sleep, join, local, must) => {
                 let spec2 = spec.clone();
-                let (tag, sleep, join) = (*tag, *sleep, *join);
+                let (tag, sleep, join, must) = (*tag, *sleep, *join, *must);
                 let local = *local && in_set;
-                log(&spec.tag, "spw", Some(tag), Some(sleep));
+                // the n-th `spw` / `spm` line of a module announces its task number n
+                let number = spec.spawns.fetch_add(1, Ordering::SeqCst) as u64;
+                log(&spec.tag, if must { "spm" } else { "spw" }, Some(tag), Some(sleep));
                 let body = async move {
                     des::time::sleep(Duration::from_nanos(sleep)).await;
+                    log(&spec2.tag, "trs", Some(number), None);
                     log(&spec2.tag, "task", Some(tag), None);
                     run_actions(&spec2, "task", tag, true, join, local);
                 };
                 let h = if local { tokio::task::spawn_local(body) } else { tokio::spawn(body) };
-                if join {
+                if must {
+                    current().join(h);
+                } else if join {
                     current().try_join(h);
                 }
             }
@@ -353,6 +372,7 @@ fn simulate(sc: &Script) -> String {
     let mut sim = Sim::new(());
     for m in &sc.mods {
         m.resets.store(0, Ordering::SeqCst);
+        m.spawns.store(0, Ordering::SeqCst);
         sim.node(m.tag.as_str(), Scripted { spec: Arc::new(m.clone()) });
     }
     for l in &sc.links {
@@ -532,7 +552,12 @@ pub(crate) fn gen_with(seed: u64, count: usize, thorough: bool, panics: u64) -> 
                 } else if x < 9 {
                     writeln!(out, "act M{m} {hook} {key} sched {} {}", r.pick(&DELAYS), r.range(lo, n)).unwrap();
                 } else if x < 13 && hook != "end" {
-                    let join = if r.chance(1, 2) { " join" } else { "" };
+                    // handle dropped | try_join | join (= AsyncFn::require_join: must finish, reported else)
+                    let join = match r.below(4) {
+                        0 => "",
+                        3 => " must",
+                        _ => " join",
+                    };
                     let local = if r.below(10) < locp[m] { " local" } else { "" };
                     writeln!(out, "act M{m} {hook} {key} spawn {} {}{join}{local}", r.range(lo, n), r.pick(&SLEEPS)).unwrap();
                 } else if x < 17 && may_down {
